@@ -137,12 +137,21 @@ def stress_inputs(tier):
     # imports: how the import sorter classifies `genpkg` must not depend on what already lies in the target / working directory
     money_schema = ("scalar Money\ninput PriceIn { minAmount: Money! maxAmount: Money note: String }\ntype Product { id: ID! listPrice: Money tags: [String!] }\n"
                     "type Query { products(min: Money, f: PriceIn): [Product!]! }\n")
-    money_queries = "query ListProducts($min: Money, $f: PriceIn) { products(min: $min, f: $f) { id listPrice tags } }\n"
+    money_queries = ("query ListProducts($min: Money, $f: PriceIn) { products(min: $min, f: $f) { id listPrice tags } }\n"
+                     "query ListBits($min: Money) { products(min: $min) { ...ProductBits tags } }\nfragment ProductBits on Product { id listPrice }\n")
     money_impl = "from decimal import Decimal\n\n\nclass Money(Decimal):\n    pass\n\n\ndef parse_money(value):\n    return Money(value)\n\n\ndef serialize_money(value):\n    return str(value)\n"
     for label, extra in (("absolute_self_import", {}), ("absolute_self_import_cwd_is_target", {"cwd_is_target": True})):
         s.append(dict(label=label, strategy="client", schema=money_schema, queries=money_queries, files={"money_impl.py": money_impl},
                       options={"scalars": {"Money": {"type": "genpkg.money_impl.Money", "parse": "genpkg.money_impl.parse_money", "serialize": "genpkg.money_impl.serialize_money"}},
                                "files_to_include": ["@in/money_impl.py"]}, **extra))
+    # names that collide after the name mapping (input fields, result fields, aliases, enum values): however the generator resolves or
+    # merges them, the text it writes must not depend on the process (salted hash(), id(), set order)
+    coll_schema = ("enum Mode { fooBar foo_bar FOO_BAR }\ninput Range { created_after: Int createdAfter: Int userId: ID user_id: ID UserId: ID mode: Mode = foo_bar }\n"
+                   "type Item { fooBar: Int foo_bar: Int itemId: ID item_id: ID mode: Mode }\ntype Query { items(r: Range, createdAfter: Int, created_after: Int): [Item!]! }\n")
+    coll_queries = ("query GetItems($r: Range) { items(r: $r) { fooBar foo_bar itemId item_id aB: mode a_b: mode } }\n"
+                    "query GetItemsAgain($r: Range, $x: Int) { items(r: $r, createdAfter: $x) { userId: itemId user_id: item_id } }\n")
+    s.append(dict(label="colliding_names", strategy="client", schema=coll_schema, queries=coll_queries, options={}))
+    s.append(dict(label="colliding_names_custom_operations", strategy="client", schema=coll_schema, queries=coll_queries, options={"enable_custom_operations": True, "convert_to_snake_case": True}))
     parts = split_schema()
     same = {"types.graphql": parts["b_types.graphql"], "a/types.graphql": parts["a/interfaces.graphqls"], "b/types.graphql": parts["a/deep/unions.gql"], "b/c/types.graphql": parts["z.graphql"]}
     s.append(dict(label="same_file_names_in_subdirs", strategy="client", schema=same,
